@@ -39,6 +39,7 @@ class VirtualClock:
         # EXTRA scheduled events to absorb in one sleep (several completions
         # become visible at the same poll)
         self.oversleep = None
+        self.sleep_hook = None
 
     # -- event queue ----------------------------------------------------
     def after(self, delay, fn):
@@ -84,6 +85,11 @@ class VirtualClock:
 
     def sleep(self, d):
         self.sleeps += 1
+        if self.sleep_hook is not None:
+            # a pre-emptive thread simulation owns waiting: time passes, somebody else runs
+            self.now += max(0.0, d)
+            self.sleep_hook()
+            return
         target = self.now + max(0.0, d)
         nxt = self.next_event_time()
         if nxt is not None and nxt > target:
